@@ -190,6 +190,16 @@ def shape_frame(cls):
 FRAME_CLASSES = ["LabelNode", "SymbolNode", "BinaryNode", "LongNode", "WordNode", "ByteNode", "PointerNode", "OpcodeNode", "IncludeIpsNode", "TableNode", "AsciiNode"]
 
 
+def include_ips_emit_cases(E):
+    """Program.emit on an `.include_ips` node: EVERY record of the patch is handed to the writer, in file order (C13 runs these too)."""
+    from vf.pyvc.loops import LoopSpec
+    L = {(P + "emit", 0): LoopSpec("Program.emit#nodes", H + "emit_inv", havoc=_havoc, modifies=_modifies, ghost=_ghost, step=H + "emit_step", item=_item, ghost_update=_ghost_update)}
+    C = {"a816.cpu.mapping.Address.__add__": "vf.specs.busmodel.address_add_spec"}
+    O = {"a816.parse.ast.expression.eval_expression": "vf.specs.stubs.eval_expression_model"}
+    return [Case(H + "program_emit_contract", f"include_ips,{n} blocks,lorom:1", shape("include_ips", ("lorom", "1"), n), target=[P + "emit"], replay=False, loop_specs=L, contracts=C, overrides=O)
+            for n in (2, 0)]
+
+
 def set_position_cases(E):
     return [Case(H + "set_position_contract", f"{bc[0]}:{bc[1]}", shape_setpos(bc), target=["a816.symbols.Resolver.set_position", "a816.symbols.Resolver.get_bus"]) for bc in BUS_CASES]
 
